@@ -130,6 +130,24 @@ def app_inputs(cls, args):
     if name == "Approximate":
         upd(args[1])
         return res
+    if name == "Integrate":
+        log_measure, integrand, reduced_vars = args
+        bound = {v.name for v in reduced_vars}
+        for f in (log_measure, integrand):
+            for k, d in f.inputs.items():
+                if k not in bound:
+                    res.setdefault(k, d)
+        return res
+    if name == "Gaussian":
+        for k, d in args[2]:
+            res[k] = d
+        return res
+    if name == "Delta":
+        for nm, (point, log_density) in args[0]:
+            res[nm] = point.output
+            upd(point)
+            upd(log_density)
+        return res
     if name == "Constant":
         for k, d in args[0]:
             res[k] = d
@@ -279,4 +297,29 @@ def tden_app(cls, args, rho, term=None):
         return tden(args[1], rho)
     if name == "Constant":
         return tden(args[1], rho)
+    if name == "Integrate":
+        log_measure, integrand, reduced_vars = args
+        names = _ranges(sorted(reduced_vars, key=lambda v: v.name))
+        acc = None
+        for combo in itertools.product(*[r for _, r in names]):
+            rho2 = dict(rho)
+            rho2.update({n: c for (n, _), c in zip(names, combo)})
+            v = np.exp(tden(log_measure, rho2)) * tden(integrand, rho2)
+            acc = v if acc is None else acc + v
+        return np.asarray(acc)
+    if name == "Gaussian":
+        white_vec, prec_sqrt, inputs = args
+        idx = tuple(int(rho[k]) for k, d in inputs if d.dtype != "real")
+        z = np.concatenate([np.asarray(rho[k], dtype=float).reshape(-1) for k, d in inputs if d.dtype == "real"])
+        r = z @ np.asarray(prec_sqrt)[idx] - np.asarray(white_vec)[idx]
+        return np.asarray(-0.5 * np.sum(r * r))
+    if name == "Delta":
+        total = 0.0
+        for nm, (point, log_density) in args[0]:
+            p = tden(point, rho)
+            v = np.asarray(rho[nm])
+            if p.shape != v.shape or not np.all(p == v):
+                return np.asarray(-np.inf)
+            total = total + tden(log_density, rho)
+        return np.asarray(total)
     raise Undecidable("class:" + name)
